@@ -2,10 +2,15 @@
 boundary families and which oracle clauses (O) are run."""
 from fractions import Fraction as F
 
-from .core import Case, gen_random
+from .core import Case, gen_random, special_matrix
 from .sigs import SIG
 
 REG = {}
+
+
+def narrow_run(name, tier, seed):
+    """narrow-region native checks (harness/src/narrow.rs), f32 and f64"""
+    return ["native", name, "3000" if tier == "quick" else "20000", str(seed)]
 
 
 def prop(pid):
@@ -227,7 +232,7 @@ class C01(Base):
     sparsify = ["o.m2.product", "o.m3.product", "o.m4.product", "o.m2.ring", "o.m3.ring", "o.m4.ring", "o.m4.constructors", "o.m3.constructors", "o.m.embed"]
     ops = _C01_OPS
     oracle_ops = ["o.m2.product", "o.m3.product", "o.m4.product", "o.m2.ring", "o.m3.ring", "o.m4.ring",
-                  "o.m4.constructors", "o.m3.constructors", "o.m.embed"]
+                  "o.m4.constructors", "o.m3.constructors", "o.m.embed", "o.m.action"]
 
     def native_runs(self, tier, seed):
         # every operand form (by reference, compound assignment) of the matrix operators against the by-value form
@@ -267,6 +272,13 @@ class C01(Base):
             out.append(Case("o.m4.constructors", [rng.rat() for _ in range(13)], family="oracle"))
             out.append(Case("o.m3.constructors", [rng.rat() for _ in range(9)], family="oracle"))
             out.append(Case("o.m.embed", rand_mat(rng, 2) + rand_mat(rng, 2) + rand_mat(rng, 3) + rand_mat(rng, 3), family="oracle"))
+            out.append(Case("o.m.action", rand_mat(rng, 4) + rand_mat(rng, 3) + [rng.rat() for _ in range(10)], family="oracle"))
+            out.append(Case("o.m.action", special_matrix(rng, 4) + special_matrix(rng, 3) + [rng.rat() for _ in range(10)], family="oracle-special"))
+        # structured right-hand / left-hand operands (exact 0 / 1 entries, affine and almost-affine bottom rows, diagonal ...)
+        for n in (2, 3, 4):
+            for _ in range(k):
+                for (x, y) in ((rand_mat(rng, n), special_matrix(rng, n)), (special_matrix(rng, n), rand_mat(rng, n)), (special_matrix(rng, n), special_matrix(rng, n))):
+                    out.append(Case(f"o.m{n}.product", x + y + [rng.rat() for _ in range(2 * n + 1)], family="oracle-special"))
         return out
 
 
@@ -284,7 +296,13 @@ class C02(Base):
     design_ref = "§6 C02"
     sparsify = ["o.m2.inverse", "o.m3.inverse", "o.m4.inverse", "o.m2.det_laws", "o.m3.det_laws", "o.m4.det_laws", "o.m2.swaps", "o.m3.swaps", "o.m4.swaps"]
     ops = _C02_OPS
-    oracle_ops = ["o.m{}.{}".format(n, o) for n in (2, 3, 4) for o in ("inverse", "det_laws", "swaps")]
+    oracle_ops = ["o.m{}.{}".format(n, o) for n in (2, 3, 4) for o in ("inverse", "det_laws", "swaps")] + [
+        "o.m4.inverse_transform", "o.m3.inverse_transform"]
+
+    def native_runs(self, tier, seed):
+        # f32/f64: well-conditioned matrices scaled by tiny / huge factors (determinant far below the
+        # approximate-equality allowance, entries below it), bottom row (0,0,0,w)
+        return [narrow_run("nrc02", tier, seed)]
 
     def families(self, rng, tier):
         out = []
@@ -336,6 +354,16 @@ class C02(Base):
                 out.append(Case(f"o.m{n}.det_laws", rand_mat(rng, n) + rand_mat(rng, n), family="oracle"))
                 out.append(Case(f"o.m{n}.swaps", rand_mat(rng, n, "primes") + rng.distinct(n),
                                 [rng.below(n) for _ in range(4)], family="oracle"))
+                # structured matrices: diagonal, (scaled) affine, unimodular (det = +-1, not orthogonal), nearly diagonal
+                for _ in range(3):
+                    out.append(Case(f"o.m{n}.inverse", special_matrix(rng, n), family="oracle-special"))
+                out.append(Case(f"o.m{n}.det_laws", special_matrix(rng, n) + special_matrix(rng, n), family="oracle-special"))
+        for _ in range(k):
+            out.append(Case("o.m4.inverse_transform", rand_mat(rng, 4) + [rng.rat() for _ in range(6)], family="oracle"))
+            out.append(Case("o.m3.inverse_transform", rand_mat(rng, 3) + [rng.rat() for _ in range(3)], family="oracle"))
+            for _ in range(4):
+                out.append(Case("o.m4.inverse_transform", special_matrix(rng, 4) + [rng.rat() for _ in range(6)], family="oracle-special"))
+                out.append(Case("o.m3.inverse_transform", special_matrix(rng, 3) + [rng.rat() for _ in range(3)], family="oracle-special"))
         return out
 
 
@@ -348,7 +376,7 @@ class C12(Base):
 
     def native_runs(self, tier, seed):
         return [["native", "c12", "3000" if tier == "quick" else "300000", str(seed)],
-                ["native", "c17", "0", str(seed), "Point"]]
+                ["native", "c17", "0", str(seed), "Point"], narrow_run("nrc12", tier, seed)]
     oracle_ops = ["o.p1.affine", "o.p2.affine", "o.p3.affine", "o.p1.centroid", "o.p2.centroid",
                   "o.p3.centroid", "o.p3.homogeneous"]
 
@@ -356,7 +384,8 @@ class C12(Base):
         out = []
         maxlen = 8 if tier == "quick" else 50
         for n in (1, 2, 3):
-            for ln in range(0, maxlen + 1):
+            # every short length, and lengths around the block sizes a blocked / chunked summation would use
+            for ln in list(range(0, maxlen + 1)) + [15, 16, 17, 18, 31, 32, 33, 47, 63, 64, 65, 100]:
                 pts = []
                 for _ in range(ln):
                     pts += [rng.rat() for _ in range(n)]
@@ -374,11 +403,22 @@ class C12(Base):
         for n in (1, 2, 3):
             for _ in range(k):
                 out.append(Case(f"o.p{n}.affine", [rng.rat() for _ in range(4 * n)], family="oracle"))
-                ln = rng.rng(1, 9)
+                ln = rng.rng(1, 9) if rng.chance(3, 4) else rng.choice([15, 16, 17, 18, 31, 33, 47, 65])
                 out.append(Case(f"o.p{n}.centroid", [rng.rat() for _ in range(ln * n)], family="oracle"))
         for _ in range(k):
             out.append(Case("o.p3.homogeneous", [rng.rat() for _ in range(3)] + [rng.rat_nz()], family="oracle"))
         return out
+
+
+def _special_unimodular(rng, n):
+    """small-entry matrix of determinant +-1 (long products stay small)"""
+    m = [[F(1) if r == c else F(0) for r in range(n)] for c in range(n)]
+    for _ in range(n):
+        i, j = rng.below(n), rng.below(n)
+        if i != j:
+            k = F(rng.choice([-1, 1]))
+            m[j] = [m[j][r] + k * m[i][r] for r in range(n)]
+    return [x for col in m for x in col]
 
 
 def unit_quat_pivot(rng, k):
@@ -417,7 +457,7 @@ class C04(Base):
     oracle_ops = ["o.q.algebra", "o.q.invert", "o.q.rotate", "o.q.compose"]
 
     def native_runs(self, tier, seed):
-        return [["native", "c17", "0", str(seed), "Quaternion"]]
+        return [["native", "c17", "0", str(seed), "Quaternion"], narrow_run("nrc04", tier, seed)]
 
     def families(self, rng, tier):
         out = []
@@ -455,6 +495,10 @@ class C05(Base):
            "b3.rotate_vector", "b3.rotate_point", "b3.invert", "b3.product_list", "b3.product_list_ref",
            "q.mul_v", "q.mul"]
     oracle_ops = ["o.q.same_rotation", "o.q.roundtrip"]
+
+    def native_runs(self, tier, seed):
+        # f32/f64: rotations by angles so small that cos rounds to one, and next to a half turn
+        return [narrow_run("nrc05", tier, seed)]
 
     def families(self, rng, tier):
         out = []
@@ -515,7 +559,12 @@ class C08(Base):
         "m4.inverse_transform", "m3.inverse_transform_vector2", "m3.inverse_transform_vector",
         "m4.inverse_transform_vector"]
     oracle_ops = ["o.dq.laws", "o.dq.inverse", "o.db3.laws", "o.db3.inverse", "o.db2.laws", "o.db2.inverse",
-                  "o.dq.matrix", "o.db2.matrix", "o.m4.transform", "o.m3.transform", "o.m3.transform2"]
+                  "o.dq.matrix", "o.db2.matrix", "o.m4.transform", "o.m3.transform", "o.m3.transform2",
+                  "o.m4.inverse_transform", "o.m3.inverse_transform"]
+
+    def native_runs(self, tier, seed):
+        # f32/f64: scale factors just above 1e-6 (far below sqrt(eps) in f32) and very large ones
+        return [narrow_run("nrc08", tier, seed)]
 
     def families(self, rng, tier):
         out = []
@@ -566,6 +615,12 @@ class C08(Base):
             dg = [F(2), F(0), F(0), F(0), F(1, 2), F(0), F(0), F(0), F(1)]
             out.append(Case("o.m3.transform", dg + rand_mat(rng, 3, "small") + rng.distinct(3) + rng.distinct(3), family="oracle-unimodular"))
             out.append(Case("o.m3.transform2", singular_mat(rng, 2) + [rng.small() for _ in range(8)] + rng.distinct(2) + rng.distinct(2), family="oracle-singular"))
+            # any matrix (projective, scaled-affine bottom row (0,0,0,w), nearly diagonal, unimodular): inverse_transform is invert
+            out.append(Case("o.m4.inverse_transform", rand_mat(rng, 4) + [rng.rat() for _ in range(6)], family="oracle"))
+            out.append(Case("o.m3.inverse_transform", rand_mat(rng, 3) + [rng.rat() for _ in range(3)], family="oracle"))
+            for _ in range(3):
+                out.append(Case("o.m4.inverse_transform", special_matrix(rng, 4) + [rng.rat() for _ in range(6)], family="oracle-special"))
+                out.append(Case("o.m3.inverse_transform", special_matrix(rng, 3) + [rng.rat() for _ in range(3)], family="oracle-special"))
         return out
 
 
@@ -717,12 +772,18 @@ class C13(Base):
 
     def native_runs(self, tier, seed):
         return [["native", "c13", "200000" if tier == "quick" else "5000000", str(seed)] + (["full"] if tier == "thorough" else []),
-                ["native", "c17", "0", str(seed), "Rad", "Deg"]]
+                ["native", "c17", "0", str(seed), "Rad", "Deg"], narrow_run("nrc13", tier, seed)]
 
 
 def float_args(name):
     def f(self, tier, seed):
         return ["native", name, "20000" if tier == "quick" else "2000000", str(seed)]
+    return f
+
+
+def float_runs(name, *narrow):
+    def f(self, tier, seed):
+        return [["native", name, "20000" if tier == "quick" else "2000000", str(seed)]] + [narrow_run(x, tier, seed) for x in narrow]
     return f
 
 
@@ -793,7 +854,7 @@ class C06(Base):
            "b3.rotate_point", "b3.invert", "q.invert", "q.rotate_point", "q.rotate_vector",
            "deg.to_rad", "rad.sin_cos"]
     oracle_ops = ["o.rot.axis_angle"]
-    native_args = float_args("c06")
+    native_runs = float_runs("c06", "nrc05")
 
     def families(self, rng, tier):
         out = []
@@ -993,7 +1054,7 @@ class C14(Base):
     sparsify = ["o.lerp"]
     ops = ["v1.lerp", "v2.lerp", "v3.lerp", "v4.lerp", "q.lerp", "q.nlerp", "q.slerp", "q.dot", "q.normalize", "q.neg"]
     oracle_ops = ["o.lerp", "o.nlerp.exact"]
-    native_args = float_args("c14")
+    native_runs = float_runs("c14", "nrc14")
     level_note = Base.level_note + FLOAT_NOTE + (" The 1e-5 rad envelope of the near (nlerp) branch of slerp is proved over the reals "
                                                  "(slerp_near_bound) and also measured by the f64 oracle.")
 
@@ -1039,7 +1100,7 @@ class C15(Base):
     ops = ["q.between_vectors", "b3.between_vectors", "b2.between_vectors", "q.from_arc", "q.from_arc_fb",
            "q.from_axis_angle", "rad.turn_div_2", "v3.cross", "v2.perp_dot", "m2.from_angle"]
     oracle_ops = ["o.arc.special"]
-    native_args = float_args("c15")
+    native_runs = float_runs("c15", "nrc15")
     level_note = Base.level_note + FLOAT_NOTE + (" Which nearly parallel/antiparallel inputs are treated as exactly so is the "
                                                  "approx relation's choice (a parameter of the model); nothing is claimed inside that allowance.")
 
@@ -1175,7 +1236,7 @@ class C17(Base):
 
     def families(self, rng, tier):
         out = []
-        for ln in range(0, 7):
+        for ln in list(range(0, 7)) + [15, 16, 17, 18, 33]:
             vs = []
             for _ in range(ln):
                 vs += rng.distinct(3)
@@ -1188,7 +1249,7 @@ class C17(Base):
             out.append(Case("q.product_list_ref", qs, family="fold-length"))
             ms = []
             for _ in range(ln):
-                ms += rand_mat(rng, 3, "small")
+                ms += rand_mat(rng, 3, "small") if ln < 10 else _special_unimodular(rng, 3)
             out.append(Case("m3.product_list", ms, family="fold-length"))
             out.append(Case("m3.product_list_ref", ms, family="fold-length"))
         return out
